@@ -74,6 +74,14 @@ def check_collective(inp, out):
         after = [float(lc.amplitude.iloc[0]), float(lc.meanstress.iloc[0]), float(lc.upper.iloc[0]), float(lc.lower.iloc[0])]
         if not close(before, after):
             v.append(('amplitude / mean / upper / lower of a held histogram change after amplitude_histogram was read', {**case, 'form': name}, before, after))
+        # a negative factor: pandas refuses intervals that are turned round (observation O10) - but IF a histogram comes back it must be a consistent one
+        try:
+            ng = lc.scale(-float(cpos))
+            if not (close(2 * ng.amplitude.iloc[0], cpos * out['amp2']) and close(ng.upper.iloc[0] - ng.lower.iloc[0], cpos * out['amp2']) and close(2 * ng.meanstress.iloc[0], -cpos * out['mean2']) and close(ng.cycles.iloc[0], 4.0)):
+                v.append(('scaling a histogram by a negative factor returns an inconsistent histogram (amplitude must stay |c| amplitude, upper - lower = 2 amplitude, mean c mean)', {**case, 'form': name, 'factor': -cpos},
+                          {'amp2': cpos * out['amp2'], 'mean2': -cpos * out['mean2']}, {'amp2': float(2 * ng.amplitude.iloc[0]), 'upper_minus_lower': float(ng.upper.iloc[0] - ng.lower.iloc[0]), 'mean2': float(2 * ng.meanstress.iloc[0])}))
+        except ValueError:
+            pass
         sc = lc.scale(float(cpos))
         sh = lc.shift(float(inp['d']))
         if not (close(2 * sc.amplitude.iloc[0], cpos * out['amp2']) and close(2 * sc.meanstress.iloc[0], cpos * out['mean2']) and close(sc.cycles.iloc[0], 4.0)):
@@ -116,6 +124,24 @@ def check_hist(inp, out, rng):
         for eid in (5, 9):
             if not close(hg.xs(eid, level='element_id').to_numpy(), list(out['range'])):
                 v.append(('range histogram along an axis differs per group', {**case, 'element_id': eid}, list(out['range']), hg.xs(eid, level='element_id').tolist()))
+    # groups with DIFFERENT contents under keys that are neither sorted nor contiguous: every group's histogram = that group histogrammed alone
+    if len(rows) >= 2:
+        groups = {30: rows, 10: rows[:1], 20: rows[1:] + rows[:1] + rows[:1]}
+        tuples, fr, to = [], [], []
+        for gid, rs in groups.items():
+            for k, r in enumerate(rs):
+                tuples.append((gid, k)); fr.append(float(r[0])); to.append(float(r[1]))
+        big = pd.DataFrame({'from': fr, 'to': to}, index=pd.MultiIndex.from_tuples(tuples, names=['element_id', 'cycle_number']))
+        hr = big.load_collective.range_histogram([float(x) for x in e], 'cycle_number').to_pandas()
+        hm = big.load_collective.histogram([[float(x) for x in e], [x / 2.0 for x in em]], 'cycle_number').to_pandas()
+        for gid, rs in groups.items():
+            alone = pd.DataFrame({'from': [float(r[0]) for r in rs], 'to': [float(r[1]) for r in rs]}).load_collective
+            wr = alone.range_histogram([float(x) for x in e]).to_pandas().to_numpy()
+            wm = alone.histogram([[float(x) for x in e], [x / 2.0 for x in em]]).to_pandas().to_numpy()
+            if not close(hr.xs(gid, level='element_id').to_numpy(), wr):
+                v.append(('range histogram along an axis: a group (keys 30, 10, 20 in that order) differs from the same cycles histogrammed alone', {**case, 'element_id': gid}, wr.tolist(), hr.xs(gid, level='element_id').tolist()))
+            if not close(hm.xs(gid, level='element_id').to_numpy(), wm):
+                v.append(('range/mean histogram along an axis: a group (keys 30, 10, 20 in that order) differs from the same cycles histogrammed alone', {**case, 'element_id': gid}, wm.tolist(), hm.xs(gid, level='element_id').tolist()))
     return v
 
 
